@@ -75,6 +75,11 @@ func getOffset(k []byte) int64 {
 // allow reads to be performed correctly.
 func (t *TFile) trackWrite(offset int64, length int64) {
 
+	if length <= 0 {
+		// Nothing is written: no offset becomes mutable.
+		return
+	}
+
 	start, end := getFileRange(offset, length)
 
 	// Lock to protect radix tree, reads can continue.
@@ -94,41 +99,33 @@ func (t *TFile) trackWrite(offset int64, length int64) {
 		return
 	}
 
+	// The markers alternate start, end, start, ... in key order and describe disjoint regions that do
+	// not touch. Every marker in [start, end] is swallowed by the write, except a start at start and
+	// an end at end, which the write shares. The last marker before start and the first marker after
+	// end tell whether the write begins / finishes inside (or adjacent to) an existing region.
 	fn := func(k []byte, v interface{}) bool {
 		isStart := v.(bool)
 		isEnd := !isStart
 		key := getOffset(k)
 
-		deleteKey := func() {
-			if key <= end {
-				txn.Delete(k)
-			}
-		}
 		switch {
+		case key < start:
+			// A start before the write leaves it inside a region until the matching end is seen.
+			insertStart = isEnd
+			return !terminate
+		case key > end:
+			// First marker past the write: an end means the write finishes inside that region.
+			insertEnd = isStart
+			return terminate
 		case isStart && (key == start):
 			insertStart = false
 			return !terminate
-		case isStart && (key < start):
-			// Only interim keys need deleting
-			return !terminate
-		case isStart && (key > start):
-			deleteKey()
-			return !terminate
-		case isEnd && (key < start):
-			// Previous end hit and can be ignored, process next key
-			return !terminate
-		case isEnd && (key > start):
-			// There is an end that is after start and no other key in the range.
-			// Skip inserting start, previous start will cover the range.
-			insertStart = false
-			// This key might need deleting and process other keys
-			if key >= end {
-				insertEnd = false
-				return terminate
-			}
-			deleteKey()
-			return !terminate
+		case isEnd && (key == end):
+			insertEnd = false
+			return terminate
 		default:
+			// Interim marker, an end at start or a start at end (adjacent regions are merged).
+			txn.Delete(k)
 			return !terminate
 		}
 	}
